@@ -535,18 +535,23 @@ Section Sound.
 
   (* a dataclass object schema accepts the members emitted for an instance *)
   Lemma data_sound n (IH: sound_at n) mf m' k (Hk: 2 * n + 1 <= k) d fs ms ps :
-    obj_match (fun f fv x => enc_ok n E (nt_mode (c_ntd d) (f_ntover f)) (c_ntd d) (f_ty f) fv x)
+    obj_match (fun f fv x =>
+                 match f_ser f with
+                 | Some rt => if fnullable f && is_none_val fv then json_eqb x JNull
+                              else enc_ok n E (nt_mode (c_ntd d) (f_ntover f)) (c_ntd d) rt fv x
+                 | None => enc_ok n E (nt_mode (c_ntd d) (f_ntover f)) (c_ntd d) (f_ty f) fv x end)
               (fun f fv => c_omit d && fnullable f && is_none_val fv) (c_fields d) fs ms = true ->
-    omap (fun f => match schema_f E dl ar (nt_mode (c_ntd d) (f_ntover f)) mf (f_ty f) with
+    omap (fun f => match schema_f E dl ar (nt_mode (c_ntd d) (f_ntover f)) mf (f_sty f) with
                    | Some s => Some (f_key f, s) | None => None end) (c_fields d) = Some ps ->
-    forallb (fun f => f_init f && ty_ok m' E (nt_mode (c_ntd d) (f_ntover f)) (c_ntd d) (f_ty f)) (c_fields d) = true ->
+    forallb (fun f => f_init f && ty_ok m' E (nt_mode (c_ntd d) (f_ntover f)) (c_ntd d) (f_sty f)
+                      && match f_ser f with Some _ => negb (fnullable f) | None => true end) (c_fields d) = true ->
     no_dup_str (map f_key (c_fields d)) = true ->
     jvalid pm defs (Sn k) (S (obj_kws (Some (c_name d)) ps (map f_key (filter (frequired (c_omit d)) (c_fields d)))))
            (JObj ms) = true.
   Proof.
     intros Hm Ho Hok Hnd.
     destruct (obj_match_facts _ _ _ _ _ Hm) as [M F].
-    pose proof (ps_assoc f_key (fun f => schema_f E dl ar (nt_mode (c_ntd d) (f_ntover f)) mf (f_ty f)) _ _ Ho Hnd) as PA.
+    pose proof (ps_assoc f_key (fun f => schema_f E dl ar (nt_mode (c_ntd d) (f_ntover f)) mf (f_sty f)) _ _ Ho Hnd) as PA.
     rewrite jvalid_S. cbn [kws_of].
     set (KW := obj_kws (Some (c_name d)) ps (map f_key (filter (frequired (c_omit d)) (c_fields d)))).
     assert (HKW: get_props KW = ps) by apply get_props_obj.
@@ -557,8 +562,13 @@ Section Sound.
     - destruct ps eqn:Eps; [reflexivity|]. rewrite <- Eps in *. cbn [forallb kw_ok]. rewrite andb_true_r.
       apply forallb_forall. intros [key x] Hin. destruct (M key x Hin) as (f & fv & Hf & -> & Hc).
       destruct (PA f Hf) as (s' & Hs' & ->).
-      pose proof (forallb_In _ _ _ Hok Hf) as H0. apply andb_true_iff in H0. destruct H0 as [_ H0].
-      eapply (IH _ _ _ _ _ Hc mf m' s'); eauto.
+      pose proof (forallb_In _ _ _ Hok Hf) as H0. apply andb_true_iff in H0. destruct H0 as [H0 Hser].
+      apply andb_true_iff in H0. destruct H0 as [_ H0].
+      (* the member conforms to the type the schema describes (the overriding function's return type, if any) *)
+      assert (Hc': enc_ok n E (nt_mode (c_ntd d) (f_ntover f)) (c_ntd d) (f_sty f) fv x = true).
+      { unfold f_sty. destruct (f_ser f) as [rt|]; [|exact Hc].
+        apply negb_true_iff in Hser. rewrite Hser in Hc. exact Hc. }
+      eapply (IH _ _ _ _ _ Hc' mf m' s'); eauto.
     - assert (Hr: forallb (has_key ms) (map f_key (filter (frequired (c_omit d)) (c_fields d))) = true).
       { apply forallb_forall. intros key Hin. apply in_map_iff in Hin. destruct Hin as (f & <- & Hf).
         apply filter_In in Hf. destruct Hf as [Hf Hd].
@@ -675,7 +685,7 @@ Section Sound.
       { unfold env_ok in Eok. apply andb_true_iff in Eok. destruct Eok as [_ Hf]. exact (forallb_In _ _ _ Hf Hin). }
       assert (Hinit: filter f_init (c_fields d) = c_fields d).
       { apply filter_all. apply forallb_forall. intros f Hf. pose proof (forallb_In _ _ _ Hok Hf) as H0.
-        apply andb_true_iff in H0. tauto. }
+        apply andb_true_iff in H0. destruct H0 as [H0 _]. apply andb_true_iff in H0. tauto. }
       destruct ar eqn:Ear.
       + inv Hs. cbn [kws_of forallb kw_ok]. rewrite andb_true_r.
         destruct (Hdefs eq_refl d Hin) as (md & s' & Hcs & Has). rewrite Has.
